@@ -113,7 +113,7 @@ def candidate(rng, spec, ctx, depth=0):
         out = {}
         for _ in range(n):
             want = "valid" if rng.random() < 0.85 else "any"
-            kk = gen_value(rng, kf, want, ctx, depth + 1) if kf else rng.choice(["k1", "k2", "k3", "a", 5])
+            kk = gen_value(rng, kf, want, ctx, depth + 1) if kf else rng.choice(["k1", "k2", "k3", "a", 5, "k1", "k2", ("eu",), ("a", 1), ()])
             if getattr(ctx, "plain", False) and not kf:
                 kk = rng.choice(["k1", "k2", "k3", "a", "key x"])
             vv = gen_value(rng, vf, want, ctx, depth + 1) if vf else rng.choice(PLAIN if getattr(ctx, "plain", False) else WRONG[1:15])
@@ -238,6 +238,9 @@ def all_leaf_nodes(sd):
         yield from rec(s)
 
 
+RAW_DEFAULT_KINDS = ("string", "int", "float", "port", "bool", "loglevel", "appmode", "ipv4addr", "ipv4net", "url", "bytes", "filename")
+
+
 def add_defaults(rng, sd, gcfg, ctx):
     from .codec import enc
     for node in all_leaf_nodes(sd):
@@ -247,6 +250,17 @@ def add_defaults(rng, sd, gcfg, ctx):
             found, v = gen_normal(rng, node, ctx)
             if not found:
                 continue
+            if getattr(gcfg, "p_raw_default", 0.0) and rng.random() < gcfg.p_raw_default and node["kind"] in RAW_DEFAULT_KINDS:
+                # a declared default that is valid but not in the form its own validation produces ("INFO", "8080",
+                # padded text): a fresh configuration exposes it as declared
+                from . import model
+                from .codec import canon
+                for _ in range(4):
+                    raw = gen_value(rng, node, "valid", ctx)
+                    r = model.norm(node, raw, ctx)
+                    if raw is not None and isinstance(r, model.OK) and canon(r.v) != canon(raw) and not (isinstance(raw, int) and raw == 13):
+                        v = raw
+                        break
             d = enc(v)
             if rng.random() < gcfg.p_callable:
                 d = {"$call": d}
